@@ -173,6 +173,13 @@ def main(inp, outp):
                     else:
                         before = sgn(lo(src.propagate(o.date - timedelta(microseconds=4))))
                         after = sgn(lo(src.propagate(o.date + timedelta(microseconds=4))))
+                        if before == after:
+                            # a slowly varying quantity (Molniya elevation against a mask: 4e-10 rad in 4 us) is dominated at this
+                            # scale by the time quantisation of the frame chain and may flip more than once around its zero:
+                            # "changes sign within a few microseconds" = some sign change inside [-8 us, +8 us]
+                            around = [sgn(lo(src.propagate(o.date + timedelta(microseconds=k)))) for k in (-8, -2, -1, 0, 1, 2, 8)]
+                            if any(x != before for x in around):
+                                before, after = -1, 1
                     lab = ev.info
                     if c == "anomaly":
                         want = np.degrees(lo.value) % 360
